@@ -88,6 +88,40 @@ func (m *Map) LoadOrStore(key, value interface{}) (actual interface{}, loaded bo
 	return value, false
 }
 
+// Swap, CompareAndSwap, CompareAndDelete: the rest of sync.Map's API (each one atomic step).
+func (m *Map) Swap(key, value interface{}) (previous interface{}, loaded bool) {
+	point(fmt.Sprintf("Map.Swap(%v)", key))
+	m.init()
+	previous, loaded = m.m[key]
+	m.m[key] = value
+	observe(fmt.Sprintf("SWAP:%v:%s:%v", key, Fmt(previous), loaded))
+	return
+}
+
+func (m *Map) CompareAndSwap(key, old, new interface{}) bool {
+	point(fmt.Sprintf("Map.CompareAndSwap(%v)", key))
+	m.init()
+	cur, ok := m.m[key]
+	swapped := ok && cur == old
+	if swapped {
+		m.m[key] = new
+	}
+	observe(fmt.Sprintf("CAS:%v:%v", key, swapped))
+	return swapped
+}
+
+func (m *Map) CompareAndDelete(key, old interface{}) (deleted bool) {
+	point(fmt.Sprintf("Map.CompareAndDelete(%v)", key))
+	m.init()
+	cur, ok := m.m[key]
+	deleted = ok && cur == old
+	if deleted {
+		delete(m.m, key)
+	}
+	observe(fmt.Sprintf("CAD:%v:%v", key, deleted))
+	return
+}
+
 func (m *Map) LoadAndDelete(key interface{}) (value interface{}, loaded bool) {
 	point(fmt.Sprintf("Map.LoadAndDelete(%v)", key))
 	m.init()
